@@ -238,10 +238,51 @@ def build_unit(unit, scratch):
     return b
 
 
+def referenced_names(b):
+    """identifiers used by the extracted functions, closed (two rounds) under the contracts of the stubs they mention:
+    the part of the shared prelude this unit actually depends on"""
+    import rscan as _r
+    region_text = "\n".join(ln for i, ln in enumerate(b.lines) if b.origin[i][0] in ("region", "stub") or b.origin[i] == ("vocab", b.unit))
+    names = set(t.text for t in _r.tokenize(region_text) if t.kind in ("ident", "macro"))
+    # items of the prelude: name -> text of the item line(s)
+    items = {}
+    for i, ln in enumerate(b.lines):
+        if b.origin[i][0] != "prelude":
+            continue
+        m = re.search(r"\bfn\s+(\w+)", ln) or re.search(r"\b(?:struct|enum|trait|mod)\s+(\w+)", ln)
+        if m:
+            items.setdefault(m.group(1), []).append("\n".join(b.lines[i:i + 12]))
+    for _ in range(2):
+        extra = set()
+        for n in list(names):
+            for txt in items.get(n, []):
+                extra |= set(t.text for t in _r.tokenize(txt) if t.kind == "ident")
+        names |= extra
+    return names
+
+
 def scan_trusted(b):
     """mechanical scan of the emitted file for everything that is assumed rather than proved"""
-    res = {"external_body": [], "assume_specification": [], "assume": [], "admit": [], "external": [], "no_decreases": [], "uninterp": [], "axiom": []}
+    res = {"external_body": [], "assume_specification": [], "assume": [], "admit": [], "external": [], "no_decreases": [], "uninterp": [], "axiom": [], "unreferenced_prelude_stubs": 0}
+    refs = referenced_names(b)
     in_region = lambda i: b.origin[i][0] == "region"
+    # enclosing `impl .. Type` / `mod name` of every line (brace counting; good enough for the prelude's layout)
+    ctx_stack = []
+    depth = 0
+    ctx_of = []
+    for ln in b.lines:
+        code0 = ln.split("//")[0]
+        m = re.match(r"\s*(?:pub(?:\([a-z]+\))?\s+)?(?:unsafe\s+)?impl\b(?:<[^{]*?>)?\s*(?:[\w:<>, '&]+?\s+for\s+)?([\w:]+)", code0)
+        m2 = re.match(r"\s*(?:pub(?:\([a-z]+\))?\s+)?mod\s+(\w+)\s*\{", code0)
+        opened = code0.count("{") - code0.count("}")
+        if m and "{" in code0:
+            ctx_stack.append((depth, m.group(1).split("::")[-1]))
+        elif m2:
+            ctx_stack.append((depth, m2.group(1)))
+        ctx_of.append([c[1] for c in ctx_stack])
+        depth += opened
+        while ctx_stack and depth <= ctx_stack[-1][0]:
+            ctx_stack.pop()
     for i, ln in enumerate(b.lines):
         code = ln.split("//")[0]
         where = "%s:%d" % (b.origin[i][1], i + 1)
@@ -257,7 +298,13 @@ def scan_trusted(b):
                 if m:
                     nm = m.group(2)
                     break
-            res["external_body"].append(nm or where)
+            ctx = ctx_of[i]
+            qual = "::".join(ctx + [nm]) if nm else where
+            owner = ctx[-1] if ctx else None
+            if b.origin[i][0] == "prelude" and nm and (nm not in refs or (owner and owner not in refs and owner not in ("app",))):
+                res["unreferenced_prelude_stubs"] += 1
+            else:
+                res["external_body"].append(qual)
         if "assume_specification" in code:
             m = re.search(r"\[\s*(.+?)\s*\]", code)
             res["assume_specification"].append(m.group(1) if m else where)
@@ -270,7 +317,9 @@ def scan_trusted(b):
         if "exec_allows_no_decreases_clause" in code:
             res["no_decreases"].append(where)
         if re.search(r"\buninterp\s+spec\s+fn\s+(\w+)", code):
-            res["uninterp"].append(re.search(r"\buninterp\s+spec\s+fn\s+(\w+)", code).group(1))
+            un = re.search(r"\buninterp\s+spec\s+fn\s+(\w+)", code).group(1)
+            if b.origin[i][0] != "prelude" or un in refs:
+                res["uninterp"].append(un)
         m = re.search(r"\b(?:broadcast\s+)?axiom\s+fn\s+(\w+)", code)
         if m:
             res["axiom"].append(m.group(1))
